@@ -8,7 +8,7 @@
       bit 8 — the spec rejects the MODEL's answer (must coincide with a _refuted class)
       bits 16, 32, ... — the query lies in a known-finding class (one bit per class)
     Definitions only. *)
-From PLS Require Export Spec.Pytest.
+From PLS Require Export Spec.Pytest Model.Cache.
 
 Inductive wop :=
 | OAnalyze (cleanup : bool) (F : path) (v : facts)
@@ -115,6 +115,24 @@ Section Verdict.
     end.
 End Verdict.
 
+(** ** what a query leaves in the memo caches *)
+Definition post_query (dk : disk) (roots : list path) (s : index) (q : query) : index :=
+  match q with
+  | QGoto F l c _ | QGotoOrDef F l c _ => post_goto dk roots s F l c
+  | QRefs d _ => post_refs dk roots s d
+  | QRefsX d _ gotos =>
+      let s1 := post_refs dk roots s d in
+      fold_left (fun s u => post_resolve_usage dk roots s (u_file u) (u_line u) (u_name u))
+                (usage_by_name s (d_name d)) s1
+  | QAvailable F _ => post_available dk roots s F
+  | QImported F _ => imp_store dk roots s F
+  | QClosest F n _ => post_closest_with dk roots s (fun _ => true) F n
+  | QAgree F _ per =>
+      fold_left (fun s x => post_closest_with dk roots s (fun _ => true) F (fst (fst x))) per
+                (post_available dk roots s F)
+  | _ => s
+  end.
+
 (** ** running a case *)
 Definition bit (b : bool) (w : N) : N := if b then w else 0.
 
@@ -124,7 +142,7 @@ Fixpoint run_case (judge : index -> query -> N) (s : index) (i : N) (steps : lis
   | Op o :: r => run_case judge (apply_wop s o) (i + 1) r
   | Ask q :: r =>
       let c := judge s q in
-      (if c =? 0 then [] else [(i, c)]) ++ run_case judge s (i + 1) r
+      (if c =? 0 then [] else [(i, c)]) ++ run_case judge (post_query [] [] s q) (i + 1) r
   end.
 
 Definition final_index (steps : list step) : index :=
